@@ -10,6 +10,7 @@ import CG.Drv.C09
 import CG.Drv.C10
 import CG.Drv.C11
 import CG.Drv.C12
+import CG.Drv.C13
 import CG.Drv.C14
 import CG.Drv.C15
 import CG.Drv.C16
@@ -20,5 +21,5 @@ import CG.Drv.C20
 /-! GENERATED from the driver modules present in CG/Drv. Do not edit. -/
 namespace CG.Drv
 def allHandlers : List (String → List String → Option String) :=
-  [C01.handle, C02.handle, C03.handle, C04.handle, C05.handle, C06.handle, C07.handle, C08.handle, C09.handle, C10.handle, C11.handle, C12.handle, C14.handle, C15.handle, C16.handle, C17.handle, C18.handle, C19.handle, C20.handle]
+  [C01.handle, C02.handle, C03.handle, C04.handle, C05.handle, C06.handle, C07.handle, C08.handle, C09.handle, C10.handle, C11.handle, C12.handle, C13.handle, C14.handle, C15.handle, C16.handle, C17.handle, C18.handle, C19.handle, C20.handle]
 end CG.Drv
